@@ -13,6 +13,8 @@
      action_body_filter_filter(f, b)   -> CONSUMES b, fresh buffer; f = NULL: fresh duplicate, b stays
      action_body_filter_close(f)       -> CONSUMES f, fresh buffer;  body_filter_drop(f) CONSUMES f
      request_drop / action_drop / api_buffer_drop                       -> CONSUME their argument
+     api_get_rule_api_version()        -> fresh string at every call
+     trusted_proxies_add_proxy(p, s)   -> nothing changes hands, p stays valid (also when s does not parse)
    Release disciplines: library drop (request, action, filter, buffer); release by the caller with
    the exact inverse of the allocation (string: CString::from_raw; hmap: Box per node + its two
    strings); never released (proxies: "created once").
@@ -65,6 +67,10 @@ FilterDrop(f) == Can /\ Step("action_body_filter_drop", <<f.id>>, {}, {f})
 BufferDrop(b) == Can /\ Step("api_buffer_drop", <<b.id>>, {}, {b})
 CreateLog(r, aid) == Can /\ Room("string") /\ Step("api_create_log_in_json", <<r.id, aid>>, {New("string")}, {})
 ProxiesCreate == Can /\ Room("proxies") /\ Step("trusted_proxies_create", <<>>, {New("proxies")}, {})
+\* adding a proxy (parsable or not) changes no ownership: the object stays valid and with the caller
+ProxiesAdd(p, kind) == Can /\ Step("trusted_proxies_add_proxy", <<p.id, kind>>, {}, {})
+\* the api version is a fresh string owned by the caller, at every call
+ApiVersion == Can /\ Room("string") /\ Step("api_get_rule_api_version", <<>>, {New("string")}, {})
 SetRemoteAddr(r, pid) == Can /\ Step("request_set_remote_addr", <<r.id, pid>>, {}, {})
 \* the caller releases what has no library drop function with the inverse of its allocation
 StringFree(s) == Can /\ Step("caller_string_free", <<s.id>>, {}, {s})
@@ -86,7 +92,8 @@ Next ==
   \/ \E b \in Of("buffer") : BufferDrop(b) \/ FilterFilter(0, b) \/ (\E f \in Of("filter") : FilterFilter(f.id, b))
   \/ \E f \in Of("filter") : FilterClose(f) \/ FilterDrop(f)
   \/ \E s \in Of("string") : StringFree(s)
-  \/ ProxiesCreate \/ NullCalls
+  \/ ProxiesCreate \/ NullCalls \/ ApiVersion
+  \/ \E p \in Of("proxies"), k \in {"cidr", "bad"} : ProxiesAdd(p, k)
 Spec == Init /\ [][Next]_vars
 
 \* ---- ownership invariants -----------------------------------------------------------------
